@@ -293,6 +293,17 @@ Definition check_fault (r_old r_fresh loaded expected fresh_exists stat_fresh di
   | None => code false ok
   end.
 
+(** ** List after a crash / during in-flight Stores: every key whose Store completed is listed,
+    from the directory and from its ancestors, recursively or not, whatever temp files a killed or
+    running writer has in the directory (the model: [fs_list] returns every present key below the
+    prefix - C10_prefix_by_component - and a temp file is never a key).  [missing] counts the
+    committed keys absent from the implementation's listings: model and specification say 0. *)
+Definition check_crash_list (acked started loaded missing : Z) : Z :=
+  let c := check_crash acked started loaded in
+  code (((c =? 0) || (c =? 2)) && (missing =? 0)) (((c =? 0) || (c =? 1)) && (missing =? 0)).
+Definition check_list_race (lists missing : Z) : Z :=
+  code (missing =? 0) ((missing =? 0) && (0 <=? lists)).
+
 (** ** dispatch *)
 Definition check_line (l : list Z) : Z :=
   match l with
@@ -312,8 +323,13 @@ Definition check_line (l : list Z) : Z :=
       | None => code_decode_error
       end
   | 3 :: r =>
-      match decode (a <- get_z ;; s <- get_z ;; x <- get_z ;; ret (a, s, x)) r with
-      | Some (a, s, x) => check_crash a s x
+      match decode (a <- get_z ;; s <- get_z ;; x <- get_z ;; m <- get_z ;; ret (a, s, x, m)) r with
+      | Some (a, s, x, m) => check_crash_list a s x m
+      | None => code_decode_error
+      end
+  | 5 :: r =>
+      match decode (n <- get_z ;; m <- get_z ;; ret (n, m)) r with
+      | Some (n, m) => check_list_race n m
       | None => code_decode_error
       end
   | 4 :: r =>
